@@ -75,11 +75,15 @@ def parse_record(data, pos=0):
         problems.append('Content-Length not digits')
     block = data[pos:pos + length]
     if len(block) != length:
-        raise WarcError('block shorter than Content-Length at {}'.format(start))
+        e = WarcError('block shorter than Content-Length at {}'.format(start))
+        e.rec_type = fmap.get('warc-type', [None])[0]
+        raise e
     pos += length
     if data[pos:pos + 4] != b'\r\n\r\n':
-        raise WarcError('record at {} not followed by CRLF CRLF (found {!r}); Content-Length {}'.format(
+        e = WarcError('record at {} not followed by CRLF CRLF (found {!r}); Content-Length {}'.format(
             start, data[pos:pos + 8], length))
+        e.rec_type = fmap.get('warc-type', [None])[0]
+        raise e
     pos += 4
     rec = {'offset': start, 'length': pos - start, 'fields': fields, 'fmap': fmap, 'block': block,
            'problems': problems,
